@@ -59,7 +59,9 @@ JoinAnswered(j) ==
 \* A node outside the validator set is in the Joining state until its request
 \* is answered: it neither gossips nor serves (node_rpc.go state gate), takes no
 \* transactions and does not monologue.
-Active(n) == n \notin Joiners \/ nodes[n].acceptedRound # -1
+\* A validator that reached its removal round suspends itself (node.checkSuspend).
+Removed(n) == nodes[n].h.removedRound # -1 /\ nodes[n].h.lcr >= nodes[n].h.removedRound
+Active(n) == (n \notin Joiners \/ nodes[n].acceptedRound # -1) /\ ~Removed(n)
 
 NextDyn ==
     \/ \E n \in Nodes : Active(n) /\ Submit(n)
@@ -102,6 +104,14 @@ C10_SameAcrossNodes ==
 C10_NoRetroactive ==
     [][ \A n \in Nodes : \A r \in DOMAIN nodes[n].h.ps :
             r \in DOMAIN nodes[n].h.ps' /\ nodes[n].h.ps'[r] = nodes[n].h.ps[r] ]_vars
+
+\* the set of a round is learned before the node reaches that round (holds only
+\* while fame is decided in fewer rounds than ActivationDelay: with delays of
+\* 1..3 TLC finds behaviours in which it fails and, a few steps later, two nodes
+\* disagree on whether an event of the removed validator is a witness
+\* (MC_dynL.cfg, expected violation))
+C10_SetKnownBeforeRoundStarts ==
+    [][ \A n \in Nodes : \A r \in (DOMAIN nodes[n].h.ps') \ (DOMAIN nodes[n].h.ps) : r > nodes[n].h.lastRound ]_vars
 
 \* a block is signed and counted only by members of its round's set
 C10_BlockPeers ==
